@@ -5,14 +5,16 @@
 (* exactly that name; ANY other string s is accepted as Other(s), and      *)
 (* Ser(Deser(s)) = s for every string.                                     *)
 (***************************************************************************)
-EXTENDS Naturals, FiniteSets
+EXTENDS Naturals, FiniteSets, TLC
 
 \* value-name pool: cases, digits, underscores, Rust keywords, case twins
 ValuePool == {"RED", "Red", "red", "rED", "DARK_RED", "darkRed", "dark_red", "_red", "red_", "R2D2",
-              "type", "Self", "async", "Other_"}
+              "type", "Self", "async", "Other_",
+              \* values spelled like the catch-all variant itself (defect D29: they did not compile)
+              "Other", "OTHER"}
 \* strings that are never schema values in this pool
 \* (including the Rust-side spellings of pool values: normalised identifiers, keyword escapes, padding)
-ExtraStrings == {"", "$nonascii", "$long", "red ", " RED", "R-E-D", "Other", "other", "OTHER", "Type", "self",
+ExtraStrings == {"", "$nonascii", "$long", "red ", " RED", "R-E-D", "other", "OTHEr", "Type", "self",
                  "DarkRed", "R2d2", "REd", "Async", "type_", "Self_", "async_", "r#type", "RED$nl"}
 Strings == ValuePool \cup ExtraStrings
 
@@ -22,13 +24,15 @@ Ser(v) == v.of
 \* what Rust normalization (UpperCamelCase, as computed by `heck`) makes of the pool
 Camel == [ RED |-> "Red", Red |-> "Red", red |-> "Red", rED |-> "REd", DARK_RED |-> "DarkRed", darkRed |-> "DarkRed",
            dark_red |-> "DarkRed", _red |-> "Red", red_ |-> "Red", R2D2 |-> "R2d2", type |-> "Type",
-           Self |-> "Self", async |-> "Async", Other_ |-> "Other" ]
+           Self |-> "Self", async |-> "Async", Other_ |-> "Other", Other |-> "Other" ]
+         @@ ("OTHER" :> "Other")     \* (OTHER is a TLA+ keyword and cannot be a record label)
 
 \* enum definitions the property speaks about: no two values coincide after the chosen
-\* normalization, and no value is spelled like the catch-all variant
+\* normalization.  A value spelled like the catch-all variant (`Other`, or `OTHER` / `other` under Rust
+\* normalization) is admissible: the generator keeps it apart as `Other_` - so it must not sit next to a
+\* value that is itself spelled `Other_`.
 Admissible(values, normalization) ==
-  /\ "Other" \notin values
+  /\ ~({"Other", "Other_"} \subseteq values)
   /\ (normalization = "rust" =>
-        /\ \A a, b \in values : a # b => Camel[a] # Camel[b]
-        /\ \A a \in values : Camel[a] # "Other")
+        \A a, b \in values : a # b => Camel[a] # Camel[b])
 =============================================================================
